@@ -497,11 +497,12 @@ class Store:
                 "".join(eq_char(a, ra, b, rb) for a, ra in zip(self.v, rs) for b, rb in zip(self.v, rs)))
 
 
-SELFAPP_EXPECTED = {"l": "1 0 0 0 0", "a": "1 0 0 0 0", "m": "1 0 0 0 0", "n": "1 1 1 0 0", "e": "1 1 0 0 0"}
+SELFAPP_EXPECTED = {"l": "1 0 0 0 0", "a": "1 0 0 0 0", "m": "1 0 0 0 0", "n": "1 1 1 0 0", "e": "1 1 0 0 0", "k": "1 1 0 0 0"}
 SELFAPP_WHAT = {"l": "Variant v; v.toList(); v.toList().append(v);", "a": "Variant v; v.toArray(); v.toArray().append(v);",
                 "m": "Variant v; v.toMap(); v.toMap().append(\"k\", v);",
                 "n": "Variant v; v.toList().append(Variant(List<Variant>())); v.toList().back().toList().append(v);",
-                "e": "Variant v; v.toList().append(Variant(1)); v.toList().back() = v;"}
+                "e": "Variant v; v.toList().append(Variant(1)); v.toList().back() = v;",
+                "k": "Variant v; v.toMap().append(\"k\", Variant(1)); v.toMap().append(\"k\", v);"}
 
 
 def selfapp_value(k):
@@ -513,7 +514,7 @@ def selfapp_value(k):
         v = ('L', [('L', [])])
         old = copy.deepcopy(v)
         v[1][0][1].append(old)
-    elif k == "e":
+    elif k == "e" or k == "k":
         v = ('L', [('i', 1)])
         old = copy.deepcopy(v)
         v[1][0] = old
